@@ -555,6 +555,10 @@ def run(prog, rep, tier):
     rep.rule('OWN-benign-rebind', 'isort_qdata / _imake_contiguous re-bind _qdata / _data and never '
              'permute the shared storage in place')
     check_benign_rebind(prog, rep)
+    rep.rule('DTYPE-block-ctor', 'blocks created with numpy constructors for a tensor declared with '
+             'dtype D carry dtype=D')
+    if check_block_ctor_dtype(prog, rep) < 2:
+        raise AnalysisError('DTYPE-block-ctor: identity blocks of _svd_worker not found')
     rep.rule('COUPLED-shared-list', 'the list _data, shared with shallow copies, never changes its '
              'length in place (only by re-binding, like _qdata)')
     if check_shared_data_list(prog, rep) < 20:
@@ -670,4 +674,55 @@ def check_shared_data_list(prog, rep):
                           'number of blocks than rows of _qdata (test_sanity fails on the copy / '
                           'the source)' % key_text(x)[:60], x.lineno)
     rep.instance('COUPLED-shared-list', {'methods_of_Array_touching__data': n})
+    return n
+
+
+# ------------------------------------------------------------------ DTYPE-block-ctor
+def check_block_ctor_dtype(prog, rep):
+    """DTYPE-block-ctor: a block created with a numpy constructor (np.eye / zeros / ones / empty /
+    identity / full) and put into the data list of a tensor declared with dtype D must be created
+    with `dtype=D`: the numpy default float64 makes the tensor claim D while holding float64 blocks
+    (its own test_sanity fails for complex / integer D). Checked where the list that becomes
+    `X._data` and the constructor `Array(legs, D, ..)` of X are in the same function."""
+    m = prog.module(NPC)
+    ctors = ('eye', 'zeros', 'ones', 'empty', 'identity', 'full')
+    n = 0
+    for q, f in m.functions.items():
+        arrays = {}     # name -> dtype text
+        for st in ast.walk(f):
+            if isinstance(st, ast.Assign) and isinstance(st.targets[0], ast.Name) and isinstance(
+                    st.value, ast.Call) and call_name(st.value) == 'Array' and \
+                    len(st.value.args) >= 2:
+                arrays[st.targets[0].id] = unparse(st.value.args[1])
+        if not arrays:
+            continue
+        lists = {}      # list name -> dtype text
+        for st in ast.walk(f):
+            if isinstance(st, ast.Assign) and isinstance(st.targets[0], ast.Attribute) and \
+                    st.targets[0].attr == '_data' and isinstance(st.targets[0].value, ast.Name) and \
+                    st.targets[0].value.id in arrays and isinstance(st.value, ast.Name):
+                lists[st.value.id] = arrays[st.targets[0].value.id]
+        for c in ast.walk(f):
+            if not (isinstance(c, ast.Call) and isinstance(c.func, ast.Attribute) and
+                    c.func.attr in ('append', 'insert') and isinstance(c.func.value, ast.Name) and
+                    c.func.value.id in lists and c.args):
+                continue
+            e = c.args[-1]
+            if not (isinstance(e, ast.Call) and (call_name(e) or '').split('.')[-1] in ctors and
+                    (call_name(e) or '').startswith('np.')):
+                continue
+            n += 1
+            want = lists[c.func.value.id]
+            got = None
+            for k in e.keywords:
+                if k.arg == 'dtype':
+                    got = unparse(k.value)
+            rep.instance('DTYPE-block-ctor', {'function': q, 'block': unparse(e)[:60],
+                                              'declared': want, 'dtype': got})
+            if got != want:
+                rep.violation('DTYPE-block-ctor', m, q, 'block-dtype:' + c.func.value.id,
+                              '`%s` creates a block with dtype %s for a tensor declared with dtype '
+                              '`%s`: the tensor claims `%s` but holds a block of another type'
+                              % (unparse(e)[:60], got or 'float64 (numpy default)', want, want),
+                              e.lineno)
     return n
